@@ -330,6 +330,74 @@ def tb8(facts, rep):
             rep.bad(rule, key, '%s:%s' % (b.file, b.line), '%s does not call gcn_content(sequence, %d)' % (nm, step))
 
 
+def ts10(facts, rep):
+    from . import eng_gd
+    rule = 'TS-10'
+    rep.rule(rule, 'ORF finder typestate: whenever a stop codon is seen in a frame with pending start positions, the pending '
+                   'list of that frame is emptied (fresh Vec or clear()) on every path before the next symbol is processed - a '
+                   'start that survives its own stop codon would later be reported as an ORF containing an in-frame stop')
+    b = None
+    for c in facts.body_list:
+        if c.name == 'next' and (c.raw.get('impl_self') or '').startswith('seq_analysis::orf::Matches'):
+            b = c
+    if b is None:
+        rep.missing(rule, 'seq_analysis::orf::Matches::next', 'not found')
+        return
+    rep.analysed_body(b)
+    g = [x for x in eng_gd.guards(b) if 'stop_codons' in x['text'] and 'contains' in x['text']]
+    key = 'orf::Matches::next|pending-starts-reset-at-stop'
+    if len(g) != 1:
+        rep.bad(rule, key, '%s:%s' % (b.file, b.line), 'expected one test of the stop codon set, found %d' % len(g))
+        return
+    g = g[0]
+    neg = g['text'].startswith('Not')
+    stop_t = g['f'] if neg else g['t']
+    resets = set()
+    for bb in b.reachable(0):
+        for s in b.stmts(bb):
+            if s['k'] == 'assign' and 'pj' in s['p']:
+                names = [el['n'] for el in s['p']['pj'] if isinstance(el, dict) and 'f' in el]
+                if names[-1:] == ['start_pos'] or (names and names[-1] == 'start_pos'):
+                    idx = [el for el in s['p']['pj'] if isinstance(el, dict) and ('i' in el or 'ci' in el)]
+                    if idx and s['p']['pj'][-1] is idx[-1]:
+                        resets.add(bb)
+        t = b.term(bb)
+        if t['k'] == 'call' and call_info(t) and call_info(t)['fn'].endswith('Vec::<T, A>::clear'):
+            e = fmt(strip(b.expr_operand(t['args'][0], inline_user=True)))
+            if 'start_pos[' in e:
+                resets.add(bb)
+    loops = b.natural_loops()
+    outer = None
+    for h, blocks in loops.items():
+        if g['bb'] in blocks and (outer is None or len(blocks) > len(loops[outer])):
+            outer = h
+    backs = [(x, h) for (x, h) in b.loops_back_edges() if h == outer]
+    # from the stop edge, every path to the next symbol (back edge of the symbol loop) or to a return passes a reset
+    seen = {stop_t}
+    st = [stop_t]
+    escaped = False
+    while st:
+        x = st.pop()
+        if x in resets:
+            continue
+        if b.term(x)['k'] == 'return':
+            escaped = True
+        for s2 in b.succ[x]:
+            if (x, s2) in backs:
+                escaped = True
+            if s2 not in seen:
+                seen.add(s2)
+                st.append(s2)
+    if not resets:
+        rep.bad(rule, key, b.loc(g['bb']), 'the pending start list is never emptied')
+    elif escaped:
+        rep.bad(rule, key, b.loc(g['bb']), 'after a stop codon the pending start positions of the frame can survive into the next '
+                                           'iteration: they will be reported with a later stop, spanning an in-frame stop codon')
+    else:
+        rep.ok(rule, key, b.loc(g['bb']), 'start_pos[offset] is emptied on every path after a stop codon')
+
+
 def run(facts, rep, ctx):
     tb6(facts, rep)
     tb8(facts, rep)
+    ts10(facts, rep)
